@@ -52,7 +52,8 @@ fn run_one(pid: &str, input: &Value) -> Option<Value> {
         "C03" | "C13" => c03::run(&input),
         "C02" => c02::run(&input),
         "C09" => c09::run(&input),
-        "C12" => c12::run(&input),
+        // script-implemented collection commands are checked with the deep handle-table comparison of the C19 module
+        "C12" => if input.get("deep").is_some() { c19::run(&input) } else { c12::run(&input) },
         "C19" => c19::run(&input),
         "C14" => c14::run(&input),
         "C20" => c20::run(&input),
@@ -86,7 +87,7 @@ fn gen(pid: &str, r: &mut rng::Rng) -> Option<Value> {
         "C03" | "C13" => Some(c03::gen(r)),
         "C02" => Some(c02::gen(r)),
         "C09" => Some(c09::gen(r)),
-        "C12" => Some(c12::gen(r)),
+        "C12" => Some(if r.chance(1, 5) { c19::gen_deep_collections(r) } else { c12::gen(r) }),
         "C19" => Some(c19::gen(r)),
         "C14" => Some(c14::gen(r)),
         "C20" => Some(c20::gen(r)),
